@@ -318,11 +318,24 @@ static void gen_cases(const sx::Options& opt, std::vector<sx::Case>& cases) {
   qla::Rng srng(1000 + opt.seed);
   int nrand = thorough ? 40 : 8;
   for (int i = 0; i < nrand; i++) skels.push_back(random_skeleton(srng, i));
+  // low-rank skeletons (defect 3 and 4): A = B*C with random integer factors; the null vectors have unequal norms
+  // over most regularisation subsets, which exercises the pivoting of the null-space orthogonalisations
+  for (int i = 0; i < (thorough ? 10 : 3); i++) {
+    int n = 6 + (i % 2), rk = n - 3 - (i % 2 ? 1 : 0), m = n + 1 + (i % 3);
+    QMat Bf(m, rk), Cf(rk, n);
+    for (int a = 0; a < m; a++) for (int b = 0; b < rk; b++) Bf(a, b) = srng.range(-2, 2);
+    for (int a = 0; a < rk; a++) for (int b = 0; b < n; b++) Cf(a, b) = srng.range(-2, 3);
+    QMat A = qla::mul(Bf, Cf);
+    if (qla::rank(A) != rk) continue;
+    skels.push_back({"lowrank" + std::to_string(i), A});
+  }
   int k = 0;
   for (auto& sk : skels) {
     qla::Rng rng(77 + k * 131 + (k >= (int)fixed_skeletons().size() ? opt.seed : 0));
+    bool lowrank = sk.name.rfind("lowrank", 0) == 0;
     std::vector<int> kinds = thorough ? std::vector<int>{0, 1, 2, 3, 4, 5} : std::vector<int>{k % 2, 3 + (k % 2), (k % 3 == 0) ? 5 : 2};
-    std::vector<std::vector<int>> subs = subsets_for(sk.A, thorough ? 8 : 4, rng);
+    if (lowrank && !thorough) kinds = std::vector<int>{0, 3};
+    std::vector<std::vector<int>> subs = subsets_for(sk.A, lowrank ? (thorough ? 30 : 14) : (thorough ? 8 : 4), rng);
     for (int kind : kinds) {
       Problem base; base.name = sk.name + "/cov" + std::to_string(kind); base.m = sk.A.r; base.n = sk.A.c; base.A = sk.A;
       layout(base, kind, rng);
